@@ -496,6 +496,13 @@ Proof.
     destruct r; cbn [snd]; auto.
 Qed.
 
+Lemma inv2_empty n ks : inv2 (empty2 n ks).
+Proof.
+  unfold inv2, empty2; cbn [nd mem aks]. split; [lia|]. split.
+  - constructor; intros; unfold beta, unused, blank in *; cbn in *; try reflexivity; try lia; try congruence.
+  - intros v _. reflexivity.
+Qed.
+
 Theorem history_inv2 fail_at : forall ops st,
   inv2 st -> hist_pre fail_at st ops -> inv2 (exec2 fail_at st ops).
 Proof.
